@@ -317,6 +317,16 @@ func (C20) Gen(r *core.Rng, tier string, emit func(string)) {
 		}
 		emit(fmt.Sprintf("sync %d %d %s:%d %s %s # %s", 1+r.Intn(3), dry, fk, fi, hexs(a), hexs(b), kind))
 	}
+	// the .sync download itself is cut short (inside the JSON line) while the remote archive is far larger than
+	// the 16 KiB that sync copies wholesale: a sync that "succeeds" here has lost the tile data
+	for i := 0; i < 3; i++ {
+		tb := randTiles(r, 50+r.Intn(40), 900)
+		ta, _ := mutateTiles(r, tb, 900)
+		if len(ta) == 0 {
+			ta = tb
+		}
+		emit(fmt.Sprintf("sync %d 0 %s:0 %s %s # big+cut-syncfile", 1+r.Intn(3), []string{"tiny", "tiny", "short"}[i], hexs(arch(ta)), hexs(arch(tb))))
+	}
 	// Range batching and block (de)serialisation
 	nAux := 60
 	if tier == "thorough" {
